@@ -15,8 +15,8 @@ from . import base
 from .c11 import check_parse, Snap
 
 ID = "C09"
-QUICK_RUNS = 1500
-THOROUGH_RUNS = 80000
+QUICK_RUNS = 3000
+THOROUGH_RUNS = 100000
 LEVEL = "exploration"
 RULE = ("one run = one message set recorded from a generated program (<= 60 messages, remote sub-tasks, several "
         "tasks) delivered in 8 drawn full orders (uniform permutation, reversed, one message held back to the end, "
